@@ -364,16 +364,16 @@ prop('C03',
      level_text='Bounded model checking of the real prepare_sign / id / precompute code: per input and output variant the prepared value equals the value with exactly the malleable fields defaulted (so malleable fields never and all other fields always reach the id pre-image), and for Script transactions the bytes fed to the hasher are exactly chain id ‖ canonical bytes of that prepared transaction without witnesses, cached id = fresh id.',
      level_note='Trusted: Kani/CBMC/cadical; logging Hasher stand-in (pre-image level).')
 
-prop('C04', wip=True,
+prop('C04',
      builds=[dict(crate='ext', filters=['c04_'])],
      default=dict(mem=8, timeout={'quick': 900, 'thorough': 2400}, cbmc_extra=FS, unwindset=['memcmp.0:400']),
      overrides=[(r'c04_tx_script_(coin|pred|contract)', dict(mem=16, tier='thorough', attempt=True, timeout=1800)),
-                (r'c04_el_message_data_predicate', dict(mem=12, timeout=1800, tier='thorough', attempt=True))],
-     min_harnesses={'quick': 18, 'thorough': 23},
+                (r'c04_el_(message_data_predicate|msgdata_predicate_offsets)', dict(mem=12, timeout=1800, tier='thorough', attempt=True))],
+     min_harnesses={'quick': 16, 'thorough': 23},
      functions_encoded=['fuel_tx::input::InputRepr::{*_offset, from_input}', 'fuel_tx::output::OutputRepr::{*_offset, from_output}', 'Input::{predicate_offset, predicate_data_offset, repr}',
                         'field::{ScriptGasLimit, ReceiptsRoot, Script, ScriptData, Policies, Inputs, Outputs, Witnesses}::*_offset / *_offset_at / inputs_predicate_offset_at for Script (chargeable_transaction.rs mod field, script.rs)',
                         'CommonMetadata::compute / ScriptMetadata (cached offsets)', '<T as Serialize>::to_bytes for Input, Output, Witness, Policies, Script'],
-     bounds=['element layer: 7 input variants (predicate / data lengths from {0,1,2,3,7,8,9}) and 5 output variants, all fields symbolic',
+     bounds=['element layer: 6 of the 7 input variants (predicate / data lengths from {0,1,2,3,7,8,9}) and 5 output variants, all fields symbolic; the MessageDataPredicate variant (three byte vectors) gives no verdict in 900-1800 s and is a thorough-tier attempt',
              'transaction layer: Script with (inputs, outputs, witnesses) in {(0,0,0), (0,0,1), (0,0,2)}, script lengths 4 and 7, data lengths 0 and 9, tip + max-fee policies; with and without precompute; index arguments beyond the vectors symbolic; shapes with inputs/outputs ((1,1,1), (1,1,0), (2,1,0)) are thorough-tier attempts that gave no verdict in 900 s'],
      assumptions=['Result::{expect,unwrap} replaced by non-formatting models (K2)'],
      out_of_claim=['Create / Upload / Upgrade / Blob / Mint body offsets (salt, storage slots, proof set, ...)', 'larger shapes'],
@@ -450,7 +450,7 @@ prop('C17',
      level_note='Trusted: Kani/CBMC/cadical. Partial claim: VM glue only, curve arithmetic not applicable.')
 
 prop('C31', wip=True,
-     builds=[dict(crate='vm', filters=['c31_', 'x31_'])],
+     builds=[dict(crate='vm', filters=['c31_'])],
      default=dict(mem=12, timeout={'quick': 1200, 'thorough': 2400}, cbmc_extra=FS4K, unwindset=['memcmp.0:70']),
      min_harnesses={'quick': 3, 'thorough': 3},
      functions_encoded=['Interpreter::init_predicate, Interpreter::init_inner', 'MemoryInstance::{reset, grow_stack, write_noownerchecks}', 'RuntimeBalances::to_vm (empty balances)', 'RuntimePredicate::from_tx',
@@ -479,7 +479,7 @@ prop('C20', wip=True,
      default=dict(mem=8, timeout={'quick': 900, 'thorough': 2400}, cbmc_extra=FS2K),
      min_harnesses={'quick': 2, 'thorough': 2},
      functions_encoded=['interpreter::executors::main::predicates::finalize_check_predicate', 'PredicatesChecked::gas_used', '<Script as Chargeable>::max_gas (free gas schedule)'],
-     bounds=['a Script with three predicate inputs (coin, message-coin and message-data predicates); per-predicate outcomes ARBITRARY (passed with any gas, evaluated to false, gas mismatch, invalid owner); all 6 arrival orders; max_gas_per_tx: any u64'],
+     bounds=['a Script with two predicate inputs (coin and message-data predicates); per-predicate outcomes ARBITRARY (passed with any gas, evaluated to false, gas mismatch, invalid owner); both arrival orders; max_gas_per_tx: any u64'],
      assumptions=['Result::{expect,unwrap} replaced by non-formatting models (K2)', 'the per-predicate outcome is an arbitrary value: the predicate run itself (whole-VM execution) is outside the claim'],
      out_of_claim=['signature recovery (curve arithmetic, see C17) and Input::check_signature with its HashMap recovery cache (K5)', 'check_predicate: owner check and the run-result mapping (verify_predicate is a whole-VM run)', 'arbitrary predicate programs; determinism of the run itself (C31)'],
      level_text='Bounded model checking of the aggregation step of predicate checking for arbitrary per-predicate outcomes: verdict and total gas are the same for every arrival order of the results (sequential = parallel), the total is the checked sum, any failed predicate fails the transaction, and estimation writes back exactly the gas each predicate used.',
